@@ -437,6 +437,18 @@ func URLRequest(t *rapid.T, ss *SchemaSpec, o URLOpts) *URLReq {
 				items = append(items, rapid.SampledFrom(pool).Draw(t, "rule"))
 			}
 
+			// Two attributes one of whose names is the other's with one
+			// character in front (id / uid, int / uint): the longer one first,
+			// both in the caller's order.
+			names := attrNames(resType)
+			for _, long := range names {
+				for _, short := range append([]string{"id"}, names...) {
+					if rs := []rune(long); len(rs) > 1 && string(rs[1:]) == short && rapid.IntRange(0, 2).Draw(t, "onecharpair") == 0 {
+						items = append(items, long, rapid.SampledFrom([]string{"", "-"}).Draw(t, "onecharpair-dir")+short)
+					}
+				}
+			}
+
 			r.Params = append(r.Params, QParam{"sort", strings.Join(items, ",")})
 		case "include":
 			n := rapid.IntRange(0, 4).Draw(t, "nincs")
